@@ -18,7 +18,9 @@ SeqsOfLen(A, n) == IF n = 0 THEN {<<>>} ELSE {Append(s, a) : s \in SeqsOfLen(A, 
 
 \* round trips: plaintext length, secret length, secret/plaintext given as string or bytes
 \* (secret lengths around the sizes at which digest + secret + salt cross 64 / 128 bytes)
-RtCases == \A n \in {0, 1, 15, 16, 17, 47, 48} : \A sl \in {0, 1, 8, 39, 40, 41, 48, 55, 56, 57, 63, 64, 65, 104, 105, 200} : \A form \in {"ss", "sb", "bs", "bb"} :
+\* (forms: plaintext / secret given as string, []byte, or as a DEFINED type over them - "S": type Password string,
+\* "B": type Key []byte - which the type constraint ~string | ~[]byte admits: the same bytes are the same secret)
+RtCases == \A n \in {0, 1, 15, 16, 17, 47, 48} : \A sl \in {0, 1, 8, 39, 40, 41, 48, 55, 56, 57, 63, 64, 65, 104, 105, 200} : \A form \in {"ss", "sb", "bs", "bb", "sS", "bB", "SB", "Bs"} :
     Emit([fn |-> "roundtrip", s |-> <<>>, a |-> <<n, sl, form>>,
           out |-> [cbc_len |-> 16 + n + 16 - (n % 16), gcm_len |-> 16 + n + 16]])
 \* the text forms `openssl enc -a` produces: one line (-A), or lines of 64 characters each ended by a newline (the
